@@ -112,6 +112,8 @@ Eff(S, q) == CL!Effective(S.reg, <<>>, Glob(S), CidId(q.cid), q.addr)
 \* (re-stated locally: DnsPipelineCore knows one global and one per-client
 \* service; here a blocked-services setting is a SET of services.)
 SvcDom(s) == CASE s = "yt" -> <<"youtube", "com">> [] s = "fb" -> <<"facebook", "com">>
+\* (the value the configuration files give to SvcDomains and Svc2Domains)
+AllSvcDomains == {SvcDom("yt"), SvcDom("fb")}
 MatchingSvcs(svcs, name) == {s \in svcs : PL!SubOrEq(name, SvcDom(s))}
 
 \* ----------------------------------------------------------------- upstream
@@ -337,10 +339,10 @@ CliKey(x) == <<x.t, x.v>>
 AnonKey(k) == IF k[1] = "a" THEN <<"a", AnonNum(k[2])>> ELSE k
 \* expected / observed count of a client key, after merging by AnonKey when m
 ExpCli(f, k, m) == IF m THEN SumOver(f, {x \in DOMAIN f : AnonKey(x) = AnonKey(k)}) ELSE Cnt(f, k)
-RECURSIVE SumSeq(_, _, _)
-SumSeq(seq, i, P(_)) == IF i > Len(seq) THEN 0
-                        ELSE (IF P(seq[i]) THEN seq[i].c ELSE 0) + SumSeq(seq, i + 1, P)
-ObsCli(seq, k, m) == SumSeq(seq, 1, LAMBDA x : IF m THEN AnonKey(CliKey(x)) = AnonKey(k) ELSE CliKey(x) = k)
+RECURSIVE SumIdx(_, _)
+SumIdx(seq, I) == IF I = {} THEN 0 ELSE LET i == CHOOSE x \in I : TRUE IN seq[i].c + SumIdx(seq, I \ {i})
+ObsCli(seq, k, m) ==
+    SumIdx(seq, {i \in DOMAIN seq : IF m THEN AnonKey(CliKey(seq[i])) = AnonKey(k) ELSE CliKey(seq[i]) = k})
 
 StatsOK(S, obs) ==
     /\ obs.total = S.st.total /\ obs.blocked = S.st.blocked /\ obs.other = 0
